@@ -473,7 +473,9 @@ pub(crate) fn read_step(conn: &ConnRef, side: Side, buf: &mut [u8], shut_rd: boo
         p.buffered -= n;
         p.total_read += n as u64;
         let (res_w, ww) = (p.res_w, p.write_waker.take());
+        let id = c.id;
         drop(c);
+        kernel::event_nums("net.read conn/side/bytes", id, side as u64, n as u64);
         wake(res_w, ww);
         return Step::Done(Ok(n));
     }
@@ -576,7 +578,9 @@ pub(crate) fn write_step(conn: &ConnRef, side: Side, buf: &[u8], shut_wr: bool, 
         p.tap.extend_from_slice(&buf[..n]);
     }
     let (res_r, rw) = (p.res_r, p.read_waker.take());
+    let id = c.id;
     drop(c);
+    kernel::event_nums("net.write conn/side/bytes", id, side as u64, n as u64);
     wake(res_r, rw);
     Step::Done(Ok(n))
 }
